@@ -12,7 +12,7 @@ EXTENDS DocGen, Builder
 
 BLeaves == {"P", "H1", "H2", "Code", "Ref", "EI"}
 BLeavesSmall == {"P", "H2", "Code", "EI"}
-BLeavesAll == {"P", "H1", "H2", "Code", "Ref", "EI", "Rule", "Tbl"}
+BLeavesAll == {"P", "H1", "H2", "Code", "Ref", "EI", "Rule", "Tbl", "EQ"}
 BConts == {"BL", "Q"}
 BContsOL == {"BL", "OL", "Q"}
 BLists == {"BL"}
@@ -21,6 +21,7 @@ SlipList == {"list-insert-left-on"}
 SlipSection == {"section-insert-left-on"}
 SlipFirstChild == {"leading-list-first-child"}
 SlipEmptyLeading == {"empty-leading-list"}
+SlipAppendFlat == {"append-flat"}
 
 \* a new item of the d-th open container that starts with a container
 NewItemCont(d, ck, kind) ==
